@@ -157,6 +157,8 @@ pub enum Ev {
     OpBegin { client: u32, idx: u32, op: Op, hk: Option<HKind>, target: Option<ActorIdx> },
     OpEnd { client: u32, idx: u32, res: Res },
     ClientDone { client: u32 },
+    /// the nonce the harness put into the `Ask` with this id
+    Nonce { id: u64, nonce: u64 },
     Created { inst: u32, aidx: ActorIdx, by_default: bool },
     /// the spawn entry point returned; `task` is the simulator task running the actor's loop
     ActorSpawned { aidx: ActorIdx, inst: u32, task: u32 },
@@ -203,6 +205,7 @@ fn ev_code(ev: &Ev) -> u64 {
             (2 ^ (*client as u64) << 8 ^ (*idx as u64) << 16).wrapping_add(res.code().rotate_left(24))
         }
         Ev::ClientDone { client } => 3 ^ (*client as u64) << 8,
+        Ev::Nonce { id, nonce } => 19 ^ id.rotate_left(8) ^ nonce.rotate_left(36),
         Ev::Created { inst, aidx, by_default } => {
             4 ^ (*inst as u64) << 8 ^ (*aidx as u64) << 32 ^ (*by_default as u64) << 60
         }
